@@ -5,10 +5,15 @@ case = [mode, drv, a, b, c, seed]; see harness/rt/src/bin/c03.rs.
   mode 2 forced window       a = scheduling point of Driver::poll (1, 2 (io_uring only), 3)
   mode 3 external-loop       a = variant 0..3
   mode 4 executor level      a = sub-mode 0..3, b = cross-thread queue size (1, 2, 64), c = threads / extra tasks
+  mode 5 host event loop     a = wake source (0 same-thread callback after flush, 1 cross-thread during the
+                             sleep, 2 timer, 3 I/O, 4 same-thread callback before flush, 5 same-thread wake of
+                             the loop's own waker after flush), b = rounds, c = cross-thread queue size
 """
 import random
 
-MODES = {1: "stress", 2: "window", 3: "external", 4: "executor"}
+MODES = {1: "stress", 2: "window", 3: "external", 4: "executor", 5: "hostloop"}
+SOURCES = {0: "same-thread-after-flush", 1: "cross-thread", 2: "timer", 3: "io", 4: "same-thread-before-flush",
+           5: "own-waker-after-flush"}
 THOROUGH_SCALE = 4
 
 
@@ -16,6 +21,12 @@ def gen_case(rng, big):
     r = rng.random()
     drv = rng.choice([0, 1])
     seed = rng.randrange(1, 1 << 30)
+    if r < 0.22:
+        # host event loop driving a real Runtime through its descriptor; half of the cases wake on
+        # the runtime's own thread between flush() and the sleep
+        src = rng.choice([0, 0, 0, 0, 1, 2, 3, 4, 5, 5])
+        return [5, drv, src, rng.choice([2, 4, 8]) * (2 if big else 1), rng.choice([1, 2, 64]), seed]
+    r = (r - 0.22) / 0.78
     if r < 0.30:
         k = rng.choice([1, 2, 4, 8])
         rounds = rng.choice([5, 10, 20, 40]) * (THOROUGH_SCALE if big else 1)
@@ -53,12 +64,14 @@ def describe(case):
         return "%s/%s/K=%d" % (m, drv, case[2])
     if case[0] == 4:
         return "%s/%s/sub=%d/q=%d" % (m, drv, case[2], case[3] if len(case) > 3 else 0)
+    if case[0] == 5:
+        return "%s/%s/%s" % (m, drv, SOURCES.get(case[2], "other"))
     return "%s/%s/%d" % (m, drv, case[2])
 
 
 def nontrivial(case, out):
     """a history with at least one remote wake and one kernel entry was recorded"""
-    if not out or len(out) < 7 or out[0] not in (1, 2, 3, 4):
+    if not out or len(out) < 7 or out[0] not in (1, 2, 3, 4, 5):
         return False
     n = out[6]
     evs = out[7:7 + 3 * n]
